@@ -308,7 +308,7 @@ def brentsrootvec(f, bounds, tol=None, verbose=False, return_interval=False, acc
         fa[mask], fb[mask] = fb[mask], fa[mask]
 
         conv = D.ar_numpy.logical_not(D.ar_numpy.logical_or(D.ar_numpy.logical_or(fb == 0, fs == 0), D.ar_numpy.abs(b - a) < tol))
-        conv = conv & (numiter <= 64)
+        conv = conv & (numiter < 64)
         not_conv = D.ar_numpy.logical_not(conv)
         true_conv = (D.ar_numpy.abs(fb) <= tol) | ((fa * fb <= 0) & (D.ar_numpy.abs(b - a) < tol))
 
